@@ -64,6 +64,10 @@ fn lib_source(g: &mut Rng) -> (String, Vec<String>) {
         ("guarded", format!("{{ assert self.x > 0 : \"neg\", x: {}, y: 2 }}", if neg { -1 } else { 1 })),
         ("checked", "{ assert lib.shallow == 1 : \"shallow changed\", v: lib.arr }".into()),
         ("deepassert", format!("{{ assert lib.deep == {depth} : \"deep\", w: 3 }}")),
+        ("outer", "{ assert lib.guarded.y == 2 : \"outer bad\", w: 2, inner: lib.guarded }".into()),
+        ("outer2", format!("{{ assert lib.mid.m == 1 : \"outer2 bad\", w: 5 }}")),
+        ("mid", format!("{{ assert lib.guarded.x {} 0 : \"mid bad\", m: 1 }}", if neg { "<" } else { ">" })),
+        ("deepouter", format!("{{ assert lib.deepassert.w == 3 : \"deepouter\", z: lib.deep }}")),
         ("arr", format!("[{}, {}, lib.shallow]", sub(g, &Ty::Num), sub(g, &Ty::Str))),
         ("lazy", sub(g, &Ty::Any)),
         ("lazyobj", sub(g, &Ty::Obj)),
